@@ -1,0 +1,72 @@
+//go:build verif
+
+package kafka
+
+// Contracts for the verification harness under /verif (comment-only file).
+//
+// C10 (packing): a source id is topicIndex*2^16 + partition and an event offset
+// is recordOffset*2^16 + leaderEpoch; both round-trip exactly for partitions and
+// epochs 0..65535 and indices / offsets below 2^47, and Commit marks offset+1
+// for exactly that topic index and partition.  The four packing functions are
+// verified with 64-bit bit-vector semantics (option mode bv64).
+
+//@ func assembleSourceID
+//@   option mode bv64
+//@   pure
+//@   ensures 0 <= partition && partition <= 65535 && 0 <= index && index < 140737488355328 ==> result == index * 65536 + partition
+
+//@ func disassembleSourceID
+//@   option mode bv64
+//@   ghost gi int
+//@   ghost gq int
+//@   pure
+//@   requires 0 <= gq && gq <= 65535 && 0 <= gi && gi < 140737488355328 && sourceID == gi * 65536 + gq
+//@   ensures index == gi && partition == gq
+
+//@ func assembleOffset
+//@   option mode bv64
+//@   pure
+//@   ensures 0 <= message.Offset && message.Offset < 140737488355328 && 0 <= message.LeaderEpoch && message.LeaderEpoch <= 65535 ==> result == message.Offset * 65536 + message.LeaderEpoch
+
+//@ func disassembleOffset
+//@   option mode bv64
+//@   ghost go_ int
+//@   ghost ge int
+//@   pure
+//@   requires 0 <= ge && ge <= 65535 && 0 <= go_ && go_ < 140737488355328 && assembledOffset == go_ * 65536 + ge
+//@   ensures result.Offset == go_ + 1 && result.Epoch == ge
+
+// Commit: for an event whose source id / offset were packed from (topic index
+// ti, partition tp, record offset ro, epoch re), the marked offset is ro+1 with
+// epoch re, for partition tp of topic Topics[ti].
+
+//@ func (*Plugin).Commit
+//@   ghost ti int
+//@   ghost tp int
+//@   ghost ro int
+//@   ghost re int
+//@   bind disassembleSourceID gi := ti
+//@   bind disassembleSourceID gq := tp
+//@   bind disassembleOffset go_ := ro
+//@   bind disassembleOffset ge := re
+//@   requires 0 <= tp && tp <= 65535 && 0 <= ti && ti < 140737488355328 && event.SourceID == ti * 65536 + tp
+//@   requires 0 <= re && re <= 65535 && 0 <= ro && ro < 140737488355328 && event.Offset == ro * 65536 + re
+//@   requires ti < len(p.config.Topics)
+//@   assert at "p.client.MarkCommitOffsets(offsets)" index == ti && partition == tp && offset.Offset == ro + 1 && offset.Epoch == re
+//@   callee MarkCommitOffsets(o)
+//@     pure
+
+// consume: every record is handed to the pipeline with the packed id of this
+// consumer's topic and the record's partition, and the packed offset/epoch.
+
+//@ func (*pconsumer).consume
+//@   option allow-exit yes
+//@   loop 2 invariant rangeindex >= -1
+//@   callee In(sourceID, name, offsets, data, isNew, meta)
+//@     requires 0 <= message.Partition && message.Partition <= 65535 && 0 <= pc.topicID && pc.topicID < 140737488355328 ==> sourceID == pc.topicID * 65536 + message.Partition
+//@     requires 0 <= message.Offset && message.Offset < 140737488355328 && 0 <= message.LeaderEpoch && message.LeaderEpoch <= 65535 ==> offsets.current == message.Offset * 65536 + message.LeaderEpoch
+//@     requires data == message.Value
+//@   callee Render(m)
+//@     pure
+//@   callee newMetaInformation(m)
+//@     pure
